@@ -49,6 +49,10 @@ CONFIGS = [
     cfg("compress_t", [["build"], ["build", "compress", "elideset"], ["compress", "forge", "tamper", "addassertion"], ["compress", "uncompress"]],
         maxsize=9, maxt=1, inv=("WellFormedInv", "C13Laws"), props=("C02Prop", "C13Prop", "C07Prop"),
         shapes="ShUpTo(%s, 4) \\cup {e \\in ShUpTo(%s, 5) : IsNode(e)}" % (B2, B2)),
+    # a forged / tampered / corrupted element used as the SUBJECT of a node, then opened (C08, C13)
+    cfg("forge_q", [["build"], ["build", "encrypt", "compressone"], ["forge", "tamper"], ["addassertion"], ["decrypt", "uncompress"]],
+        atoms=("a1",), keys=("k1",), maxsize=9, maxt=1, inv=("WellFormedInv",), props=("C08Prop", "C13Prop", "C07Prop"),
+        shapes="{Leaf(V(\"a1\")), KV(1), Wrap(KV(1)), Node(KV(1), {Assn(KV(1), KV(1))})}"),
     # comparison of an envelope with its obscured variants, copies and unrelated ones (C14)
     cfg("compare_q", [["build"], ["build", "elide", "compress", "encrypt", "codec"], ["elide", "compress", "encrypt", "codec", "compare"], ["compare"]],
         maxsize=9, maxt=2, inv=("WellFormedInv", "DeclaredDigestHonest", "C14Laws"), props=("C02Prop", "C14Prop", "C07Prop"),
@@ -59,23 +63,23 @@ CONFIGS = [
     # the decoder on every single structural mutation of valid encodings (C06)
     cfg("decode_q", [["build"], ["elideset", "compressone", "decodewire", "codec"], ["decodewire", "codec"]], nreg=1, maxsize=12, maxt=1,
         inv=("WellFormedInv", "C05RoundTrip"), props=("C06Prop",),
-        shapes="ShUpTo(%s, 5) \\cup NodeSubjectNodes(%s, 9) \\cup Decorated(%s) \\cup Nodes2(%s) \\cup Nodes3(%s) \\cup TkvShapes \\cup BstrShapes" % (B3, B2, B1, B2, B2)),
+        shapes="ShUpTo(%s, 5) \\cup NodeSubjectNodes(%s, 9) \\cup Decorated(%s) \\cup Nodes2(%s) \\cup Nodes3(%s) \\cup TkvShapes \\cup BstrShapes \\cup DeepDecorated(%s)" % (B3, B2, B1, B2, B2, B1)),
     cfg("decode_t", [["build"], ["elideset", "compressone", "decodewire", "codec"], ["decodewire2", "codec"]], nreg=1, maxsize=12, maxt=1,
         inv=("WellFormedInv", "C05RoundTrip"), props=("C06Prop",),
         shapes="ShUpTo(%s, 4) \\cup {e \\in Sh(%s, 5) : IsNode(e)} \\cup Nodes2(%s) \\cup TkvShapes" % (B2, B2, B1)),
     # signatures: sign, decorate / obscure / forge, verify (C09)
-    cfg("sig_q", [["build"], ["signature"], ["signature", "forgesigned", "elideset", "addassertion"], ["verify"]],
+    cfg("sig_q", [["build"], ["signature"], ["signature", "forgesigned", "elideset", "addassertion", "decorate"], ["verify"]],
         atoms=("a1",), nreg=1, maxsize=30, maxt=1, inv=("WellFormedInv",), props=("C09Prop",),
         shapes="ShUpTo(%s, 2) \\cup {e \\in Sh(%s, 5) : IsNode(e)} \\cup NodeSubjectNodes(%s, 9)" % (B1, B1, B1)),
     # recipients and seal (C10)
-    cfg("recipient_q", [["build"], ["recipient_enc"], ["recipient_add", "addassertion", "recipient_dec"], ["recipient_dec"]],
+    cfg("recipient_q", [["build"], ["recipient_enc"], ["recipient_add", "addassertion", "recipient_dec", "decorate"], ["recipient_dec"]],
         atoms=("a1",), nreg=1, maxsize=30, maxt=1, inv=("WellFormedInv",), props=("C10Prop",),
         shapes="ShUpTo(%s, 3) \\cup {e \\in Sh(%s, 5) : IsNode(e)} \\cup NodeSubjectNodes({Leaf(V(\"a1\"))}, 9) \\cup Decorated({Leaf(V(\"a1\"))})" % (B1, B1)),
     # SSKR: every policy x every subset of the shares; shares of two splits mixed (C11)
     cfg("sskr_q", [["build"], ["encrypt"], ["sskr_splitjoin"]],
         atoms=("a1",), nreg=1, maxsize=30, maxt=1, inv=("WellFormedInv",), props=("C11Prop",), policies=policies(2, 3),
         shapes="ShUpTo(%s, 2) \\cup {e \\in Sh(%s, 5) : IsNode(e)} \\cup NodeSubjectNodes({Leaf(V(\"a1\"))}, 9) \\cup Decorated({Leaf(V(\"a1\"))})" % (B1, B1)),
-    cfg("sskr_mix_q", [["build"], ["encrypt"], ["sskr_pick"], ["sskr_pick", "encrypt"], ["sskr_join"]],
+    cfg("sskr_mix_q", [["build"], ["encrypt"], ["sskr_pick"], ["sskr_pick", "encrypt", "decorate"], ["sskr_join"]],
         atoms=("a1",), nreg=2, keys=("k1", "k2"), maxsize=30, maxt=1, inv=("WellFormedInv",), props=("C11Prop",),
         policies="{<<1, <<<<2, 2>>>>>>, <<1, <<<<1, 2>>>>>>, <<2, <<<<1, 1>>, <<1, 1>>>>>>}",
         shapes="{Leaf(V(\"a1\"))}"),
@@ -84,7 +88,7 @@ CONFIGS = [
         nreg=2, maxsize=12, maxt=2, inv=("WellFormedInv",), props=("C12Prop",),
         shapes="ShUpTo(%s, 3) \\cup {e \\in Sh(%s, 5) : IsNode(e)} \\cup Nodes2(%s) \\cup WrapNodes(%s) \\cup NodeSubjectNodes({Leaf(V(\"a1\"))}, 9) \\cup Decorated({Leaf(V(\"a1\"))})" % (B2, B2, B1, B1)),
     # types and attachments (C19)
-    cfg("attach_q", [["build"], ["build", "types", "attach", "badattach"], ["types", "attach", "badattach"], ["obs_types", "obs_attach"]],
+    cfg("attach_q", [["build"], ["build", "types", "attach", "badattach"], ["types", "attach", "badattach", "decorate"], ["obs_types", "obs_attach"]],
         atoms=("a1",), nreg=2, maxsize=30, maxt=1, inv=("WellFormedInv",), props=("C19Prop",),
         shapes="ShUpTo(%s, 2) \\cup {e \\in Sh(%s, 5) : IsNode(e)} \\cup NodeSubjectNodes({Leaf(V(\"a1\"))}, 9) \\cup Decorated({Leaf(V(\"a1\"))})" % (B1, B1)),
     # salt: structure (C17, direction A)
